@@ -116,6 +116,18 @@ int main(int argc, char** argv) {
             ZSTD_inBuffer in; ZSTD_outBuffer out; size_t r; fill(3000, 11); in.src = src; in.size = 3000; in.pos = 0; out.dst = dst; out.size = sizeof(dst); out.pos = 0;
             r = ZSTD_compressStream2(cctx, &out, &in, ZSTD_e_continue); spos = out.pos;
             fprintf(T, "{\"e\":\"cbegin\",\"ok\":%s,", ZSTD_isError(r) ? "false" : "true"); csnap(); fprintf(T, "}\n");
+        } else if (!strcmp(cmd, "cbeginp")) {    /* start a streaming frame and stay inside it WITH compressed data still pending (tiny output buffer) */
+            ZSTD_inBuffer in; ZSTD_outBuffer out; size_t r; unsigned i; size_t n = sizeof(src) < 131072 ? sizeof(src) : 131072; for (i = 0; i < n; i++) src[i] = (char)((i * 2654435761u) >> 11 ^ (i * 40503u) >> 3);
+            out.dst = dst; out.size = 64; out.pos = 0;
+            in.src = src; in.size = n; in.pos = 0; r = ZSTD_compressStream2(cctx, &out, &in, ZSTD_e_continue);       /* fills the input buffer */
+            if (!ZSTD_isError(r)) { in.src = src; in.size = n; in.pos = 0; r = ZSTD_compressStream2(cctx, &out, &in, ZSTD_e_continue); }   /* completes a block: 64 bytes taken, the rest pending */
+            spos = out.pos;
+            fprintf(T, "{\"e\":\"cbegin\",\"pending\":%zu,\"ok\":%s,", ZSTD_isError(r) ? (size_t)0 : r, ZSTD_isError(r) ? "false" : "true"); csnap(); fprintf(T, "}\n");
+        } else if (!strcmp(cmd, "csetparams")) { /* ZSTD_CCtx_setParams: compression + frame parameters in one call; <bad> makes one compression parameter invalid */
+            int bad = atoi(a); ZSTD_parameters zp = ZSTD_getParams(3, 0, 0); size_t r; int fl = atoi(b);
+            zp.fParams.checksumFlag = fl & 1; zp.fParams.contentSizeFlag = (fl >> 1) & 1; zp.fParams.noDictIDFlag = (fl >> 2) & 1; if (bad) zp.cParams.windowLog = 1;
+            r = ZSTD_CCtx_setParams(cctx, zp);
+            fprintf(T, "{\"e\":\"csetparams\",\"bad\":%d,\"ok\":%s,", bad, ZSTD_isError(r) ? "false" : "true"); csnap(); fprintf(T, "}\n");
         } else if (!strcmp(cmd, "cend")) {       /* finish the streaming frame started by cbegin (new output buffer: header is at its start only if nothing was flushed before) */
             ZSTD_inBuffer in; ZSTD_outBuffer out; size_t r; int guard = 0; in.src = src; in.size = 0; in.pos = 0; out.dst = dst; out.size = sizeof(dst); out.pos = spos;   /* continue after what cbegin emitted: the frame starts at dst */
             do { r = ZSTD_compressStream2(cctx, &out, &in, ZSTD_e_end); } while (!ZSTD_isError(r) && r != 0 && ++guard < 100);
